@@ -134,6 +134,16 @@ fn plan_strategy() -> BoxedStrategy<Plan> {
         6 => (proptest::collection::vec(item.clone(), 1..40), -20i8..20).prop_map(|(items, straddle)| Plan { items, straddle }),
         2 => (proptest::collection::vec(item.clone(), 40..160), -20i8..20).prop_map(|(items, straddle)| Plan { items, straddle }),
         1 => (proptest::collection::vec((Just(0u8), any::<u16>()), 100..600), -20i8..20).prop_map(|(items, straddle)| Plan { items, straddle }),
+        // many small spans and one or two medium ones whose total is steered onto the limit, a
+        // byte or two either way: one datagram of >= 15 spans that just fits, or just does not
+        3 => (proptest::collection::vec((Just(0u8), any::<u16>()), 15..60), proptest::collection::vec((Just(1u8), any::<u16>()), 1..3), -3i8..4, any::<u16>())
+            .prop_map(|(mut items, mediums, straddle, at)| {
+                for (k, m) in mediums.into_iter().enumerate() {
+                    let pos = (at as usize + k * 7) % (items.len() + 1);
+                    items.insert(pos, m);
+                }
+                Plan { items, straddle }
+            }),
     ]
     .boxed()
 }
